@@ -1,7 +1,44 @@
 import Nv.Model.C02
+import Nv.Props.C02
 import Nv.Gen.C02
-/-! C02 — obligations on the definitions regenerated from /repo's current source. -/
+/-!
+C02 — obligations on the definitions regenerated from /repo's current source: the shape facts the model is written
+against, the configuration being one for which the theorems are proved, and the property theorems instantiated at
+the regenerated configuration (every locker type = some shard count `n` and routing `sh` with `sh k < n`).
+-/
 namespace Nv.C02
+open Nv.Gen.C02 (cfg)
+
 theorem tie_facts : Nv.Gen.C02.facts = Facts.expected := by decide
-theorem tie_cfg_proved : Proved Nv.Gen.C02.cfg := by decide
+theorem tie_cfg_proved : Proved cfg := by decide
+
+variable {n : Nat} {sh : Key → Nat} {s : State}
+
+theorem tie_excl (hsh : ∀ k, sh k < n) (hr : (lts cfg n sh).Reach s) {t1 t2 : Tid} {k : Key} {o1 o2 : ObjId} {m2 : Mode}
+    (h1 : (k, o1, Mode.w) ∈ (s.th t1).held) (h2 : (k, o2, m2) ∈ (s.th t2).held) : t1 = t2 ∧ o1 = o2 ∧ m2 = Mode.w :=
+  kl_excl tie_cfg_proved hsh hr h1 h2
+
+theorem tie_same_object (hsh : ∀ k, sh k < n) (hr : (lts cfg n sh).Reach s) {t : Tid} {k : Key} {o : ObjId} {m : Mode}
+    (h : (k, o, m) ∈ refs (s.th t)) : s.table k = some o :=
+  kl_same_object tie_cfg_proved hsh hr h
+
+theorem tie_all_held (hsh : ∀ k, sh k < n) (hr : (lts cfg n sh).Reach s) {t : Tid} {m : Mode} {all : List Key}
+    (hph : (s.th t).phase = .acq m all []) : ∀ k ∈ all, holdsIn (s.th t) m k :=
+  kl_all_held tie_cfg_proved hsh hr hph
+
+theorem tie_no_leak (hsh : ∀ k, sh k < n) (hr : (lts cfg n sh).Reach s) (hidle : ∀ t, refs (s.th t) = []) (k : Key) :
+    s.table k = none :=
+  kl_no_leak tie_cfg_proved hsh hr hidle k
+
+theorem tie_no_fault (hsh : ∀ k, sh k < n) (hr : (lts cfg n sh).Reach s) : s.fault = false :=
+  kl_no_fault tie_cfg_proved hsh hr
+
+theorem tie_group_order (hsh : ∀ k, sh k < n) (keys : List Key) :
+    (acqOrder cfg n sh keys).Pairwise (fun a b => sh a ≤ sh b) :=
+  (group_order_consistent tie_cfg_proved hsh keys).1
+
+theorem tie_deadlock_free (hsh : ∀ k, sh k < n) {rank : Key → Nat} (hr : ReachOrd cfg n sh rank s)
+    (hbusy : ∃ t, (s.th t).phase ≠ .idle) : ∃ a s', isProgress a ∧ step cfg n sh s a = some s' :=
+  kl_deadlock_free tie_cfg_proved hsh hr hbusy
+
 end Nv.C02
